@@ -167,8 +167,9 @@ def run(chk):
             gids = [rng.choice(alpha) if rng.random() < 0.85 else rng.choice(gl) for _ in range(n)]
             cid = 'q%d.%d' % (k, t)
             fvs = prog[0].get('feats')
-            cases.append(S.case_line(cid, p, [inv[g] for g in gids], 32, feats=(','.join('%x=%x' % (f, v) for f, v in sorted(fvs.items())) if fvs else '-'), ops=('dump', 'udump')))
-            mcases.append('%s gdl %d %s %s %s' % (cid, nsub, text, advtab, ','.join(map(str, gids))))
+            rtl = rng.random() < 0.3                     # right to left on these left-to-right fonts: the passes see the reversed stream
+            cases.append(S.case_line(cid, p, [inv[g] for g in gids], 32, dir_=1 if rtl else 0, feats=(','.join('%x=%x' % (f, v) for f, v in sorted(fvs.items())) if fvs else '-'), ops=('dump', 'udump')))
+            mcases.append('%s gdl %d%s %s %s %s' % (cid, nsub, 'r' if rtl else '', text, advtab, ','.join(map(str, gids))))
             progs.append((p, text))
     _, il, _ = vlib.run_pair(None, w, cases, timeout=3000)
     ml, _, _ = vlib.run_pair(mexe, None, mcases, timeout=3000)
